@@ -62,6 +62,7 @@ func tmCase(c *core.Ctx, rng *rand.Rand) {
 		}
 		allOK := true
 		refused := 0
+		wait := 4 * time.Second // a pool worker handles an accepted response within microseconds; generous under load
 		recv := func(i int) {
 			var r protoCommonV1.TaskResponse
 			switch x := rng.Intn(10); {
@@ -85,11 +86,17 @@ func tmCase(c *core.Ctx, rng *rand.Rand) {
 				refused++
 			} else {
 				// handled by a pool worker: wait until handleResponse has run (it always counts the response)
-				for end := time.Now().Add(time.Second); time.Now().Before(end); {
+				handled := false
+				for end := time.Now().Add(wait); time.Now().Before(end); {
 					if now, _, _, _, _ := root.Ctx.VerifState(); now != before {
+						handled = true
 						break
 					}
 					time.Sleep(100 * time.Microsecond)
+				}
+				if !handled {
+					wait = 200 * time.Millisecond // accepted by Receive and never handled: do not sit out every later one
+					noteTimeoutCase()
 				}
 			}
 			c.Op(fmt.Sprintf("tm-recv %d %s", id, encodeResp(&r)), verdict+" "+stateLine(&root.Ctx.MetricContext))
